@@ -16,11 +16,20 @@ META = {
             "the same commander: every committed transaction (answer and log, captured when it is inserted) is held against ITS OWN element, the "
             "accept/reject decision of each element against a replay on the balances left by the elements before it, and the outcome of each element "
             "against the Lean model run on those balances. Posting lists are biased towards near-collisions of the textual encodings of a monetary "
-            "(asset||amount cut at different points, prefix assets, suffix amounts).",
+            "(asset||amount cut at different points, prefix assets, suffix amounts). A third stream (area txseq) submits SEQUENCES of posting lists to ONE commander "
+            "(one compilation cache), directly and through the v2 handler: TxToScriptData's text depends only on the shape of a list, so whatever is kept between two "
+            "requests under a key derived from the text must not hand the later request the earlier one's program - the stored pairs of corpus/nscache (different shapes over "
+            "the same variables whose texts collide under CRC-32 IEEE / Castagnoli, FNV-1 / FNV-1a 32, Adler-32, the 31- and 33-multiplier string hashes, 4-byte truncations "
+            "of SHA-256 / MD5 / SHA-1; found by tools/collide through the real function) as A-then-B and B-then-A, plus random sequences of 2-4 lists over one pool; every "
+            "committed transaction is held against its own request on the balances left by the requests before it. References and metadata keys / values carry NUL, "
+            "C0 controls, DEL, NEL, no-break space, line / paragraph separators, BOM, zero-width space (and pairs of keys differing only by one) in a fifth of the requests, "
+            "on every path and in script-mode bulk elements (request metadata and reference judged): the engine must commit them as supplied or refuse the request.",
     "note": "Trusted: Lean kernel (axioms propext/Classical.choice/Quot.sound at most); Spec as the meaning of Numscript (validated against compiler+VM by "
             "C01/C08's differential, not here); the Go harness (fake backend.Ledger that forwards CreateTransaction to a real command.Commander exactly as "
             "engine.Ledger does, storage.InMemoryStore instead of PostgreSQL); reference / timestamp handling of the commander is covered by the "
-            "differential and the oracle only (engine model B owns it). Sequential requests only.",
+            "differential and the oracle only (engine model B owns it). Sequential requests only. The weak-key pairs are a corpus of KNOWN-weak digests, not a proof "
+            "that every weak cache key is caught (a 64-bit checksum or a keyed hash has no stored pair); when TxToScriptData's text format changes the stored pairs "
+            "stop colliding (the evidence counts stale pairs; tools/collide/find rebuilds them).",
     "technique": "Lean 4 proof (induction over the posting list with a replay invariant on Spec's tracked balances; string lemmas for the value "
                  "round trip) + differential correspondence with TxToScriptData, the commander and the v1/v2/bulk handlers + replay oracle",
     "design_ref": "5 (C09), 1 (A3), appendix A",
@@ -616,7 +625,10 @@ def run(ctx):
                        "request with a repeated account, a repeated amount, a chain or a text collision. (b) bulks of 1-4 elements: 62%% posting-mode creates "
                        "(1-4 postings from pools shared by the bulk, metadata key / reference / timestamp each present or absent per element, 8%% malformed), "
                        "script creates, reverts, metadata writes, unknown actions, undecodable data; balances derived for the whole sequence (exact / one short / "
-                       "empty / surplus), continueOnFailure on or off; non-trivial = distinct bulk with at least two posting-mode creates") % (12 if ctx.quick else 30)
+                       "empty / surplus), continueOnFailure on or off; non-trivial = distinct bulk with at least two posting-mode creates. (c) sequences on one commander: "
+                       "the weak-key pairs of corpus/nscache in both orders + random sequences of 2-4 lists (1-5 postings over 1-3 accounts + world and 1-2 monetaries; a "
+                       "quarter repeat the previous shape with other amounts, a third permute / end-swap it). Strings: 22%% of the single requests and 18%% of the bulk elements "
+                       "get NUL / control / invisible characters in reference, metadata keys and values") % (12 if ctx.quick else 30)
     ctx.assumptions += [
         "requests are submitted one at a time, never as dry runs (known engine defects on those paths are tracked under C02/C14/C16)",
         "the persisted log is the one held by storage.InMemoryStore; the SQL store's encoding is C13's business",
